@@ -67,7 +67,7 @@ CLAIMED = {
         "technique": "Coq proof (loop invariants over a model of keywordsearches.py) + differential correspondence",
     },
     "C04": {
-        "text": ("8 theorems (Coq, no axioms) over a model of Processor._delete_nodes (after the repairs 17f9ea8 and "
+        "text": ("10 theorems (Coq, no axioms) over a model of Processor._delete_nodes (after the repairs 17f9ea8 and "
                  "1c243db) acting on the coordinates the read side gathered (parents addressed by object identity; "
                  "Collector results flattened, the root refused before anything is deleted, one entry per (parent, "
                  "parentref) place, list elements by descending position, dict / list / set branches): "
@@ -80,7 +80,11 @@ CLAIMED = {
                  "delete_nodes with the coordinates captured at the entry of _delete_nodes, model vs implementation "
                  "vs an independent judge over a shadow copy.  C04_delete_exact_end_to_end composes the "
                  "evaluator model with the delete model (hypothesis: every coordinate of the query's own answer "
-                 "locates a node; `**` + filter answers that name a node twice are inside it)."),
+                 "locates a node; `**` + filter answers that name a node twice are inside it); "
+                 "C04_delete_end_to_end_full discharges that hypothesis from C02 (C04_gathered_located: every gathered "
+                 "coordinate is the root coordinate or locates a node) for every path of the C01 fragment without "
+                 "slice segments: the delete is refused with the document unchanged when the root was matched and "
+                 "otherwise removes exactly the gathered nodes - negative indexes, anchors, duplicates, disorder included."),
         "design_ref": "DESIGN.md section 4 (C04), docs/C04.md",
         "note": NOTE_COMMON + "  The matched coordinates are an input of this model (obtained from the real Processor); the read side is C01/C02.",
         "technique": "Coq proof (reverse-order index lemmas over an identity-addressed document model) + differential correspondence",
@@ -325,7 +329,7 @@ CLAIMED = {
         "technique": "Coq proof (stream invariant over a fuelled evaluator model with the keyword model plugged in; fuel sufficiency) + differential correspondence",
     },
     "C01": {
-        "text": ("13 theorems (Coq, no axioms) over the evaluator model Eval.v (processor.py's query side, Python "
+        "text": ("18 theorems (Coq, no axioms) over the evaluator model Eval.v (processor.py's query side, Python "
                  "generators as streams): C01_required_sem_partial - for every non-null document and every path of "
                  "the fragment (key incl. Array-of-Hashes pass-through, index, slice, anchor, all five candidate "
                  "loops of a search on '.', a named attribute or a descendant path, all nine operators, inversion, "
@@ -338,8 +342,13 @@ CLAIMED = {
                  "theorem); C01_optional_on_existing_partial "
                  "(optional = required as streams, nothing created; guard excludes F16b, a branch lacking a creatable "
                  "segment; F10 - the walk stopping at an intermediate null - is repaired and its clause gone); exists() iff the "
-                 "required query yields a node; dot and slash texts of the same segments give equal escaped "
-                 "segments (from C08; the step to equal prepared paths is not proved).  Tie: model vs "
+                 "required query yields a node; C01_notation - dot and slash texts of the same segments (every "
+                 "segment list C08's wf accepts, all kinds) prepare alike and the required query and exists() give "
+                 "EQUAL streams: same results, order, coordinates (equal escaped segments from C08; the unescaped "
+                 "twin parse is read by the required driver for the segment type / collector attributes only); "
+                 "C01_results_doc_ordered_partial - with ** only as the last segment the results' locations are "
+                 "pairwise in strict document order (each node once, none with a descendant; ** + another segment "
+                 "is the _refuted witness).  Tie: model vs "
                  "implementation on (location, identity) lists, plus the EXTRACTED spec and an independent "
                  "Python reference as further opinions, on every case."),
         "design_ref": "DESIGN.md section 4 (C01), Appendix C, docs/C01.md",
@@ -366,19 +375,27 @@ CLAIMED = {
         "technique": "Coq proof (no-mutation stream invariant; embedding/frame lemma for creation) + snapshot differential correspondence",
     },
     "C02": {
-        "text": ("13 theorems (Coq, no axioms) over the evaluator model and the path builder: for every real result of every path of the "
+        "text": ("19 theorems (Coq, no axioms) over the evaluator model and the path builder: for every real result of every path of the "
                  "C01 fragment (slices only as the last segment) the parent holds the node under the parentref "
                  "(hash: membership of the pair with an equal key; sequence: the element at the index; set: "
                  "membership) and the ancestry chain walks from the document root, each link a child step, to the "
-                 "node (C02_results_located, C02_parentref, C02_ancestry).  Path text: C02_path_resolves_partial - "
+                 "node (C02_results_located, C02_parentref, C02_ancestry); for documents whose mapping keys are pairwise "
+                 "unequal (every loaded document) in the Doc.child form parent[parentref] = node (C02_parentref_child).  "
+                 "Path text: C02_path_resolves_partial - "
                  "for every location whose keys are safe (computable guard pb_safe = exactly the complement of "
                  "listed finding F26: non-empty, no *, no leading &, no back-slash before a back-slash / "
                  "separator / ( [ ] blank quote, integer keys without a string twin, no leading / in dot "
                  "notation; keys with EVERY escapable character are safe) the text the library builds "
                  "(escape_path_section per key, [n] per index), fed back, parses to one KEY/INDEX segment per "
                  "step and the required query yields exactly the node there, in both notations, also for "
-                 "str() of the reported path; seven _refuted witnesses, one per failing clause.  That every "
-                 "handler's reported path IS that text is tied on every located result, not proved.  Tie: "
+                 "str() of the reported path; seven _refuted witnesses, one per failing clause.  "
+                 "C02_reported_path_is_built_partial: EVERY handler's reported path (key incl. pass-through, index, "
+                 "hash / set slices, all search loops, * and ** with and without a following segment) IS that text "
+                 "for the result's location (read off the ancestry), and the whole NodeCoords is the straight walk's; "
+                 "guards: no [&anchor] segment (F27), no index counted from the end, no integer-looking key spelled "
+                 "differently from str(int) - witnesses of what is reported instead.  Hence "
+                 "C02_every_reported_path_resolves_partial: re-evaluating the reported path of ANY real result, in "
+                 "either notation, yields exactly that result (guards: pb_safe of its location and the two above).  Tie: "
                  "parent identity, parentref, reported path, full ancestry of every result; the judge "
                  "indexes the real parent, walks the real ancestry and re-queries str(path) in both notations; "
                  "F27 ([&anchor] paths matching other nodes)."),
